@@ -707,6 +707,27 @@ def quad_inv_time_is(T, tau):
 WS_BUFFERS = [('cache_waypoints', 1), ('cache_gdT', 0), ('user_gdT_buffer', 0), ('explicit_time_grad_buffer', 0), ('discrete_grad_q_buffer', 1)]
 
 
+def workspace_sized(S, ws, m):
+    nc = order_of(S) + 1
+    W = lambda f: ws.fields[f]
+    return (W('cache_times').size().eq(m) & W('segment_start_times').size().eq(m) & W('segment_costs').size().eq(m) &
+            W('cache_gdC').R.eq(nc * m) & conj([W(f).R.eq(m + extra) for f, extra in WS_BUFFERS]))
+
+
+def evaluate_requires(S, OFF, x, ws):
+    """precondition of evaluate: a configured problem, a decision vector of the layout's dimension, a workspace whose buffers are
+    sized consistently (any earlier problem size), the layout cache either dirty or correct"""
+    D = S.cfg['DIM']
+    N, K = S.num_segments_, S.integral_num_steps_
+    out = [('layout_invariant_' + label, under(mk_not(S.layout_dirty_), p)) for label, p in layout_ok(S, OFF)]
+    dim = OFF(n_entries(S)) + n_blocks(S) * D
+    out.append(('configured_problem', (N >= 1) & (N <= NMAX) & (K >= 1) & (K <= NMAX) & S.v('ref_waypoints_').R.eq(N + 1)))
+    out.append(('decision_vector_has_the_layout_dimension', x.R.eq(dim)))
+    m = ws.fields['cache_times'].size()
+    out.append(('workspace_buffers_sized_consistently', (m >= 0) & (m <= NMAX) & workspace_sized(S, ws, m)))
+    return out
+
+
 @register
 class Evaluate(Contract):
     """three-cost evaluate with a caller-supplied workspace: decode, cost assembly (C08); gradient assembly (C07)"""
@@ -723,18 +744,18 @@ class Evaluate(Contract):
         W = lambda f: ws.fields[f]
         T = W('cache_times')
         OFF = layout_defs(S)
-        for label, p in layout_ok(S, OFF):
-            S.requires(under(mk_not(S.layout_dirty_), p), 'layout_invariant_' + label)
         cnt = n_entries(S)
         doff = OFF(cnt)
         dim = doff + n_blocks(S) * D
-        S.requires((N >= 1) & (N <= NMAX) & (K >= 1) & (K <= NMAX) & S.v('ref_waypoints_').R.eq(N + 1), 'configured_problem')
-        S.requires(x.R.eq(dim), 'decision_vector_has_the_layout_dimension')
-        m = T.size()
-        S.requires((m >= 0) & (m <= NMAX) & W('segment_start_times').size().eq(m) & W('segment_costs').size().eq(m) &
-                   W('cache_gdC').R.eq(nc * m) & conj([W(f).R.eq(m + extra) for f, extra in WS_BUFFERS]), 'workspace_buffers_sized_consistently')
+        for label, p in evaluate_requires(S, OFF, x, ws):
+            S.requires(p, label)
         S.terms(0, N, N - 1, cnt, cnt - 1)
         S.assigns(ws, gout, *[S.v(v) for v in LAYOUT_STATE])
+        # what a following evaluation on the same optimizer and workspace may rely on
+        S.ensures(mk_not(S.layout_dirty_), 'layout_cache_clean')
+        for label, p in layout_ok(S, OFF):
+            S.ensures(p, 'layout_' + label)
+        S.ensures(workspace_sized(S, ws, N), 'workspace_sized_for_this_problem')
         tc, wc, trap, en = (S.fresh_real(b) for b in ('tcv', 'wcv', 'trapv', 'env'))
         S.ensures(S.result.eq(tc + wc + trap + ite(S.rho_energy_ > 0, S.rho_energy_ * en, 0)),
                   'cost_is_time_cost_plus_waypoint_cost_plus_quadrature_plus_weighted_energy')
@@ -982,3 +1003,102 @@ class CopyAssign(Contract):
         S.assigns(this, this.fields['internal_ws_'].target)
         for lab, p in copy_post(S, this, other):
             S.ensures(p, lab)
+
+
+# ================================================================================================ gradient self-check (C19)
+@register
+class CheckGradients(Contract):
+    """three-cost checkGradients on a caller-supplied workspace"""
+    key = 'SplineOptimizer.checkGradients'
+    nparams = 7
+
+    def spec(self, S):
+        x = S.v('x')
+        ws = S.v('ws').target
+        eps, tol = S.eps, S.tol
+        R = S.v('result')
+        an, nu = R.fields['analytical'], R.fields['numerical']
+        OFF = layout_defs(S)
+        for label, p in evaluate_requires(S, OFF, x, ws):
+            S.requires(p, label)
+        S.requires(eps.ne(0), 'nonzero_step')
+        n = x.R
+        S.terms(0, n)
+        S.assigns(ws, *[S.v(v) for v in LAYOUT_STATE])
+        CP, _ = S.spec_array('CP')      # CP[i]: the cost evaluate returned at x + eps e_i
+        CM, _ = S.spec_array('CM')      # CM[i]: the cost evaluate returned at x - eps e_i
+        r2e = S.fresh_real('inv_two_eps')
+        (S.ensures if S.mode == 'call' else S.requires)((2 * eps * r2e).eq(1), 'def_one_over_two_eps')
+        S.ensures(an.R.eq(n) & nu.R.eq(n), 'both_gradients_have_the_size_of_the_decision_vector')
+        S.ensures(S.forall(0, n, lambda i: [nu.at(i, 0).eq((CP(i) - CM(i)) * r2e)]), 'numerical_gradient_is_the_central_difference_of_the_cost')
+        S.ensures(R.fields['valid'].rd().eq(R.fields['error_norm'].rd() < tol), 'verdict_is_error_norm_below_tolerance')
+        S.ensures(R.fields['error_norm'].rd() >= 0, 'error_norm_non_negative')
+        S.ensures(S.forall(0, n, lambda k: [R.fields['error_norm'].rd() * R.fields['error_norm'].rd() >= (an.at(k, 0) - nu.at(k, 0)) * (an.at(k, 0) - nu.at(k, 0))]),
+                  'error_norm_dominates_every_component_difference')
+        if S.mode != 'verify':
+            return
+        state = {'calls': 0, 'i': None}
+        S.ghost('entry', lambda G: state.update(calls=0))
+
+        def loop0_inv(L):
+            state['i'] = L.i
+            return [('range', (L.i >= 0) & (L.i <= n)), ('sizes', L.x_temp.R.eq(n) & L.dummy_grad.R.eq(n) & L.res.fields['numerical'].R.eq(n) & L.res.fields['analytical'].R.eq(n)),
+                    ('perturbed_vector_restored', S.forall(0, n, lambda k: [L.x_temp.at(k, 0).eq(x.at(k, 0))])),
+                    ('central_differences_so_far', S.forall(0, L.i, lambda k: [L.res.fields['numerical'].at(k, 0).eq((CP(k) - CM(k)) * r2e)])),
+                    ('evaluate_can_run_again', mk_not(S.layout_dirty_) & workspace_sized(S, ws, S.num_segments_))] + \
+                   [('layout_' + label, p) for label, p in layout_ok(S, OFF)]
+        S.loop(0, inv=loop0_inv, variant=lambda L: n - L.i, terms=lambda L: [L.i])
+
+        def before(G):
+            ns = G.ctx
+            c = state['calls']
+            state['calls'] = c + 1
+            same = lambda a, b: E.const(getattr(a, 'name', 1) == getattr(b, 'name', 2))
+            tgt = ns.v('carg5')
+            G.lemma(E.const(getattr(tgt, 'target', None) is ws), 'every_evaluation_uses_the_given_workspace')
+            if c in (0, 3):
+                G.lemma(same(ns.v('carg0'), x), 'analytic_gradient_evaluated_at_the_checked_vector' if c == 0 else 'final_evaluation_restores_the_state_of_the_checked_vector')
+                G.lemma(same(ns.v('carg1'), ns.v('res').fields['analytical']), 'analytic_gradient_is_what_evaluate_wrote' if c == 0 else 'final_evaluation_rewrites_the_analytic_gradient')
+            else:
+                i = state['i']
+                sk = S.sk(0)
+                sign = 1 if c == 1 else -1
+                xt = ns.v('carg0')
+                G.lemma(implies((sk >= 0) & (sk < n), xt.at(sk, 0).eq(x.at(sk, 0) + ite(sk.eq(i), sign * eps, 0))),
+                        'cost_plus_is_evaluated_at_x_plus_eps_e_i' if c == 1 else 'cost_minus_is_evaluated_at_x_minus_eps_e_i')
+                G.lemma(E.const(getattr(ns.v('carg1'), 'name', 1) != getattr(ns.v('res').fields['analytical'], 'name', 2)), 'perturbed_evaluations_do_not_touch_the_analytic_gradient')
+        S.ghost('call.evaluate.before', before)
+
+        def after(G):
+            c = state['calls']          # already incremented by the matching 'before'
+            if c == 2:
+                G.assume_fact(G.ctx.ret.eq(CP(state['i'])), 'CP[i] names the cost at x + eps e_i')
+            elif c == 3:
+                G.assume_fact(G.ctx.ret.eq(CM(state['i'])), 'CM[i] names the cost at x - eps e_i')
+        S.ghost('call.evaluate.after', after)
+
+
+@register
+class CheckGradientsTwoCost(Contract):
+    """two-cost overload: forwards to the three-cost one with a zero waypoint cost and the caller's step and tolerance"""
+    key = 'SplineOptimizer.checkGradients'
+    nparams = 6
+
+    def spec(self, S):
+        x = S.v('x')
+        ws = S.v('ws').target
+        OFF = layout_defs(S)
+        for label, p in evaluate_requires(S, OFF, x, ws):
+            S.requires(p, label)
+        S.requires(S.eps.ne(0), 'nonzero_step')
+        S.assigns(ws, *[S.v(v) for v in LAYOUT_STATE])
+        R = S.v('result')
+        S.ensures(R.fields['valid'].rd().eq(R.fields['error_norm'].rd() < S.tol), 'verdict_uses_the_callers_tolerance')
+        if S.mode != 'verify':
+            return
+
+        def before(G):
+            ns = G.ctx
+            G.lemma(ns.carg5.eq(S.eps) & ns.carg6.eq(S.tol), 'forwards_the_callers_step_and_tolerance')
+            G.lemma(E.const(getattr(ns.v('carg0'), 'name', 1) == getattr(x, 'name', 2)), 'forwards_the_checked_vector')
+        S.ghost('call.checkGradients.before', before)
